@@ -546,11 +546,9 @@ func c09Resolve(n int, f float64) (int, bool) {
 // member is the read side of a[k] / a.name (DESIGN 3.7): never changes a container
 func (in *c09Interp) member(base *c09Loc, key c09Val) (*c09Loc, error) {
 	if base.cell.v.k == 'u' {
-		if key.k == 'n' {
-			base.cell.v = c09NewArr()
-		} else {
-			base.cell.v = c09NewObj()
-		}
+		// nothing is set here yet: no member to find, and a read changes nothing; the unset
+		// value becomes a container only when the member is assigned to (materialize)
+		return c09Missing(base, key), nil
 	}
 	bv := base.cell.v
 	switch bv.k {
@@ -643,6 +641,14 @@ func (in *c09Interp) materialize(l *c09Loc) (*c09Cell, error) {
 		// a character (or the null past the end) of a string: strings cannot be stored into
 		return nil, c09E("cannot set member on a string")
 	default:
+		if p.cell.v.k == 'u' {
+			// an unset value becomes an array for a numeric key, an object otherwise
+			if l.key.k == 'n' {
+				p.cell.v = c09NewArr()
+			} else {
+				p.cell.v = c09NewObj()
+			}
+		}
 		container = p.cell.v
 		if container.k == 'z' {
 			return nil, c09E("could not create this object")
@@ -677,7 +683,17 @@ func (in *c09Interp) assign(l *c09Loc, src *c09Cell) (*c09Cell, error) {
 		}
 		cell = c
 	case 'h':
-		return nil, c09E("cannot set member on a string")
+		// a character position of a string. the store looks at what the base holds NOW: if the
+		// right-hand side has meanwhile turned the base into a container (`b[2] = b = [..]`),
+		// it sets that member; a string cannot be stored into
+		if k := l.parent.cell.v.k; k != 'a' && k != 'o' {
+			return nil, c09E("cannot set member on a string")
+		}
+		c, err := c09SetMember(l.parent.cell.v, l.key, &c09Cell{c09Null})
+		if err != nil {
+			return nil, err
+		}
+		cell = c
 	}
 	w, err := c09CopyVal(src.v)
 	if err != nil {
